@@ -292,7 +292,7 @@ def seq_stats3(text):
     import re as _re
 
     t = m._preprocess_string(text)
-    t = _re.sub("#[a-zA-Z0-9_-]+", "", t).strip()
+    t = _re.sub(" +", " ", _re.sub("#[a-zA-Z0-9_-]+", "", t)).strip()
     ms = m._match_regex(t, m.global_regex)
     n = len(ms)
     if n == 0:
